@@ -65,13 +65,7 @@ func (e *Exec) classOfStruct(t types.Type, obj *StructV) *Term {
 				}
 			} else if isOctoValue(f.Type()) {
 				// a single Value key: class of the value (uninterpreted over its leaves)
-				var ls []*Term
-				leaves(obj.Fields[i], &ls)
-				var sorts []string
-				for _, l := range ls {
-					sorts = append(sorts, l.Sort)
-				}
-				parts = append(parts, ufun("cls.value", sorts, SInt, ls...))
+				parts = append(parts, valueClass(obj.Fields[i]))
 			}
 		}
 	}
